@@ -7,10 +7,10 @@
 
 namespace vf5 {
 
-enum Kind { K_UNDEF, K_WRONG, K_OVF, K_UNCAST, K_TRUNC, K_UBCHK, K_UBCONV, NK };
+enum Kind { K_UNDEF, K_WRONG, K_OVF, K_UNCAST, K_TRUNC, K_UBCHK, K_UBCONV, K_FPSCALE, NK };
 static const char *const KIND_NAME[NK] = {"cleared-undefined", "cleared-wrong-value", "ovf-unjustified",
                                           "uncastable-not-lossy", "cleared-truncates",
-                                          "ub-in-cleared-checker", "ub-in-conversion"};
+                                          "ub-in-cleared-checker", "ub-in-conversion", "fp-scale-wrong"};
 
 // a value of any of the 11 reps, cheap to build, rendered only when printed
 struct Val {
@@ -52,13 +52,19 @@ struct Stats {
     unsigned long long evals = 0, n_trunc = 0, n_ovf = 0, n_lossy = 0, n_cleared = 0, n_exec = 0,
                        n_band = 0, n_viol = 0, n_must = 0, ub_chk_lossy = 0, ub_chk_lossy_na = 0,
                        ub_chk_cleared = 0, ub_conv = 0, n_nonfinite = 0, band_ulp = 0,
-                       nk[NK] = {0, 0, 0, 0, 0, 0, 0};
-    double max_ulp = 0;
+                       ub_chk_cleared_wrap = 0,   // unsigned wrap-around inside a checker on a cleared input
+                       n_trunc_unjust = 0,        // truncation reported although every stage is exact
+                       band_fpscale = 0,          // floating stage 2 between 4 and 64 ulp from exact
+                       band_stage3 = 0,           // fp->fp: max(T) < |y| < max(T) + ulp/2 (rounds to max)
+                       nk[NK] = {0, 0, 0, 0, 0, 0, 0, 0};
+    double max_ulp = 0, max_fpscale = 0;
 };
 
 struct Ctx {
     int id, show;
     const char *sname, *tname, *cname;
+    const char *shape = "";
+    bool wrap_defined = false;   // arithmetic of the common type is unsigned: "arith" events are defined wraps
     unsigned long long N, D;
     Stats st;
     int shown[NK];
@@ -70,6 +76,11 @@ struct Ctx {
         for (int k = 0; k < NK; ++k) shown[k] = 0;
     }
 };
+
+// is the arithmetic of the common type C unsigned (then UBSan "arith" events are defined wrap-arounds)?
+template <typename C, bool INT = std::is_integral<C>::value> struct WrapDefined { static constexpr bool value = false; };
+template <typename C> struct WrapDefined<C, true> { static constexpr bool value = std::is_unsigned<decltype(C() * C())>::value; };
+template <typename C> constexpr bool wrap_defined() { return WrapDefined<C>::value; }
 
 inline std::string kv(const char *k, const std::string &v) {
     return std::string(",\"") + k + "\":\"" + v + "\"";
@@ -95,9 +106,9 @@ __attribute__((noinline)) inline void emit(Ctx &c, int kind, const Val &x, bool 
     if (d.form) det += kv("form", d.form);
     if (d.has_expect) det += kv("expect", val_str(d.expect));
     if (d.has_got) det += kv("got", val_str(d.got)) + kv("gotbits", val_bits(d.got));
-    std::printf("V {\"inst\":%d,\"S\":\"%s\",\"T\":\"%s\",\"C\":\"%s\",\"N\":\"%llu\",\"D\":\"%llu\","
+    std::printf("V {\"inst\":%d,\"S\":\"%s\",\"T\":\"%s\",\"C\":\"%s\",\"u\":\"%s\",\"N\":\"%llu\",\"D\":\"%llu\","
                 "\"x\":\"%s\",\"xbits\":\"%s\",\"kind\":\"%s\",\"lib\":{\"trunc\":%d,\"ovf\":%d,\"lossy\":%d}%s}\n",
-                c.id, c.sname, c.tname, c.cname, c.N, c.D, val_str(x).c_str(), val_bits(x).c_str(),
+                c.id, c.sname, c.tname, c.cname, c.shape, c.N, c.D, val_str(x).c_str(), val_bits(x).c_str(),
                 KIND_NAME[kind], lt, lo, ll, det.c_str());
 }
 
@@ -107,13 +118,16 @@ __attribute__((noinline)) inline void finish(const Ctx &c) {
                 "\"trunc\":%llu,\"ovf\":%llu,\"lossy\":%llu,\"cleared\":%llu,\"exec\":%llu,\"band\":%llu,"
                 "\"viol\":%llu,\"must\":%llu,\"ub_chk_lossy\":%llu,\"ub_chk_lossy_na\":%llu,"
                 "\"ub_chk_cleared\":%llu,\"ub_conv\":%llu,\"nonfinite\":%llu,\"band_ulp\":%llu,\"max_ulp\":%.4f,"
-                "\"first_cleared\":\"%s\",\"first_lossy\":\"%s\",\"nk\":[%llu,%llu,%llu,%llu,%llu,%llu,%llu]}\n",
+                "\"ub_chk_cleared_wrap\":%llu,\"trunc_unjust\":%llu,\"band_fpscale\":%llu,\"band_stage3\":%llu,"
+                "\"max_fpscale\":%.4f,"
+                "\"first_cleared\":\"%s\",\"first_lossy\":\"%s\",\"nk\":[%llu,%llu,%llu,%llu,%llu,%llu,%llu,%llu]}\n",
                 c.id, c.sname, c.tname, c.cname, c.N, c.D, s.evals, s.n_trunc, s.n_ovf, s.n_lossy, s.n_cleared,
                 s.n_exec, s.n_band, s.n_viol, s.n_must, s.ub_chk_lossy, s.ub_chk_lossy_na, s.ub_chk_cleared,
                 s.ub_conv, s.n_nonfinite, s.band_ulp, s.max_ulp,
+                s.ub_chk_cleared_wrap, s.n_trunc_unjust, s.band_fpscale, s.band_stage3, s.max_fpscale,
                 c.have_cleared ? val_str(c.first_cleared).c_str() : "",
                 c.have_lossy ? val_str(c.first_lossy).c_str() : "",
-                s.nk[0], s.nk[1], s.nk[2], s.nk[3], s.nk[4], s.nk[5], s.nk[6]);
+                s.nk[0], s.nk[1], s.nk[2], s.nk[3], s.nk[4], s.nk[5], s.nk[6], s.nk[7]);
     std::fflush(stdout);
 }
 
@@ -126,8 +140,13 @@ inline bool account(Ctx &c, const Val &x, bool lt, bool lo, bool ll, const UbSna
         return true;
     }
     ++c.st.n_cleared;
-    if (ubc.total()) {
-        c.st.ub_chk_cleared += ubc.total();
+    // Undefined behaviour inside a checker on an input it clears: signed overflow, float-cast overflow and
+    // the non-arithmetic events.  Unsigned wrap-around is defined and the statement constrains the
+    // conversion steps only (those are observed when the conversion itself is executed): counted.
+    const unsigned long ub = (c.wrap_defined ? 0 : ubc.arith) + ubc.fcast + ubc.other;
+    if (c.wrap_defined) c.st.ub_chk_cleared_wrap += ubc.arith;
+    if (ub) {
+        c.st.ub_chk_cleared += ub;
         emit(c, K_UBCHK, x, lt, lo, ll, d);
     }
     return false;
